@@ -237,6 +237,7 @@ theorem step_reg {N : Name} {st : St} (hinv : Inv N st) :
   · simp [step, hr, hinv]
   · have hr' : st.registered = false := by simpa using hr
     simp only [step, hr', Bool.false_eq_true, if_false, and_true]
+    unfold registerTop
     have hempty : ∀ m x, x ∉ st.s.active m := by
       intro m x hx; have := (hinv.act m x).mp hx; rw [hr'] at this; cases this.1
     obtain ⟨hg, hact⟩ := register_spec hinv.tree N N.links 0 root st.s (by simp) (by omega) hinv.good
@@ -279,6 +280,12 @@ theorem run_inv {N : Name} {st : St} (hinv : Inv N st) (ops : List Op) : Inv N (
   | nil => exact hinv
   | cons op ops ih => exact ih (step_inv hinv op)
 
+theorem run_append (N : Name) (st : St) (a b : List Op) :
+    run N st (a ++ b) = run N (run N st a) b := by
+  induction a generalizing st with
+  | nil => rfl
+  | cons x a ih => simp [run, ih]
+
 /-! ### glue for the property file: start states, Boolean spec ↔ `Reports`, witness data -/
 
 /-- Start of a history: heap `h₀`, no registration, no notifier anywhere. -/
@@ -308,16 +315,10 @@ theorem reportsAt_iff (N : Name) (h : Heap) (o : Nat) (a : Attr) :
 
 
 /-- The witness: name `kids.value`, 4-argument handler, `root.kids.append(N())`. -/
-def witnessName : Name := ⟨[⟨.kids, true⟩], .value, .src⟩
+def witnessName : Name := ⟨[⟨.kids, true⟩], .value, .src, false⟩
 def witnessOps : List Op := [.reg]
 def witnessOp : Op := .splice 0 0 0 1
 
-
-theorem run_append (N : Name) (st : St) (a b : List Op) :
-    run N st (a ++ b) = run N (run N st a) b := by
-  induction a generalizing st with
-  | nil => rfl
-  | cons x a ih => simp [run, ih]
 
 theorem not_registered_calls {N : Name} {st : St} (hinv : Inv N st)
     (hr : st.registered = false) (op : Op) (hop : op ≠ .reg) :
@@ -339,8 +340,16 @@ theorem not_registered_calls {N : Name} {st : St} (hinv : Inv N st)
 
 
 /-- `child.kids.value`, 4-argument handler; build root → 1 → {2,3}, register. -/
-def exName : Name := ⟨[⟨.child, true⟩, ⟨.kids, true⟩], .value, .src⟩
+def exName : Name := ⟨[⟨.child, true⟩, ⟨.kids, true⟩], .value, .src, false⟩
 def exOps : List Op := [.setChild 0 true, .setKids 1 2, .reg]
 
+
+/-- A deferred registration made when the container already holds an object:
+`kids:value`, `deferred=True`, `root.kids = [N()]` first (finding F87 before /repo 0c9dae1). -/
+def lateName : Name := ⟨[⟨.kids, false⟩], .value, .src, true⟩
+def lateOps : List Op := [.setKids 0 1, .reg]
+
+/-- The decorator shape: deferred, registered first, then the list is filled, emptied, … -/
+def decoOps : List Op := [.reg, .splice 0 0 0 1, .splice 0 1 1 1, .unreg]
 
 end TraitsVerif.Model.Legacy
